@@ -5,9 +5,11 @@
         scale_loops_terminate        both loops stop within 701 iterations for every finite
                                      double > 0 (Flocq: Bmult_correct / Bdiv_correct)
         format_number_terminates     FormatNumber <> LFuel with fuel >= 701 (general form)
-        format_number_terminates_pos ... for every finite value > 0
-        format_number_diverges_nonpos  for value <= 0 and an exponent picture the first loop
-                                     makes no progress: LFuel for EVERY fuel (Go hangs)
+        format_number_terminates_all ... for every double (zero, negative, positive, NaN, Inf)
+        scale_up_stuck_zero/_neg     HISTORICAL: on the original tree the first loop ran on the
+                                     signed value and made no progress for value <= 0 (Go hung
+                                     on $formatNumber(0, "0.0e0")); repaired in /repo f28523c:
+                                     the loops now scale |value| and are skipped for zero
    3. Panic freedom of the picture analyser and formatter (see the second half of the file).
 
    Uses Flocq (proof file only).  Print Assumptions shows the four axioms of the Coq standard
@@ -382,7 +384,10 @@ Proof.
 Qed.
 Print Assumptions scale_loops_terminate.
 
-(* ---- no progress for value <= 0 ---- *)
+(* ---- HISTORICAL: no progress of the first loop on a signed value <= 0.  On the original
+   tree FormatNumber ran [scale_up] on the value itself, so these two lemmas were the proof
+   that $formatNumber(x, picture-with-exponent) never returned for x <= 0 (for every fuel);
+   since /repo f28523c the loops run on |value| and are skipped for zero. ---- *)
 Lemma scale_up_stuck_zero s minM :
   fltb (S754_zero s) minM = true ->
   forall fuel e, scale_up fuel (S754_zero s) minM e = None.
@@ -527,14 +532,16 @@ Section Terminates.
     | intros; discriminate ].
 
   (* THEOREM 2 (general form).  FormatNumber runs out of fuel only in the scaling loops, and
-     with fuel >= 701 not even there provided that, whenever the picture has an exponent part,
-     the (percent-scaled) value is a finite double > 0 and the two mantissa bounds
-     math.Pow(10, sf-1), math.Pow(10, sf) satisfy the decidable condition [pow_okb]. *)
+     with fuel >= 701 not even there provided that, whenever the picture has an exponent part
+     and the (percent-scaled) value is not zero, its magnitude is a finite double > 0 and the
+     two mantissa bounds math.Pow(10, sf-1), math.Pow(10, sf) satisfy the decidable condition
+     [pow_okb]. *)
   Theorem format_number_terminates fuel value picture fmt :
     (701 <= fuel)%nat ->
     (forall vars, process_picture picture fmt (fltb value fzero) = LOk vars ->
        sv_min_exponent_size vars <> 0 -> is_nan value = false -> is_inf value = false ->
-       posfin (scaled value vars) /\
+       feqb (scaled value vars) fzero = false ->
+       posfin (fabs (scaled value vars)) /\
        pow_okb (go_pow10 (sv_scaling_factor vars - 1)) (go_pow10 (sv_scaling_factor vars)) = true) ->
     format_number fmt_fixed fuel value picture fmt <> LFuel.
   Proof.
@@ -547,10 +554,13 @@ Section Terminates.
     destruct (is_nan value) eqn:Hnan; [discriminate|].
     destruct (is_inf value) eqn:Hinf; [discriminate|].
     fold (scaled value vars).
-    destruct (negb (sv_min_exponent_size vars =? 0)) eqn:Hexp.
-    - destruct (Hvars ltac:(lia) eq_refl eq_refl) as [Hpos Hok].
+    destruct (negb (sv_min_exponent_size vars =? 0)) eqn:Hexp;
+      destruct (feqb (scaled value vars) fzero) eqn:Hz; cbn [negb andb].
+    - simpl lbind. tail_nf.
+    - destruct (Hvars ltac:(lia) eq_refl eq_refl eq_refl) as [Hpos Hok].
       destruct (scale_loops_terminate _ _ _ fuel Hok Hpos Hfuel) as (v1 & e1 & r & Hup & Hdown).
-      rewrite Hup, Hdown. destruct r as [v2 e2]. simpl lbind. tail_nf.
+      cbv zeta. rewrite Hup, Hdown. destruct r as [v2 e2]. simpl lbind. tail_nf.
+    - simpl lbind. tail_nf.
     - simpl lbind. tail_nf.
   Qed.
 End Terminates.
@@ -579,101 +589,44 @@ Proof.
   unfold pow_ok_bound. rewrite Z2Nat.id by lia. lia.
 Qed.
 
-Lemma posfin_not_neg v : posfin v -> fltb v fzero = false.
-Proof. intros (m & e & -> & _). reflexivity. Qed.
+Lemma fabs_posfin v :
+  SpecFloat.valid_binary 53 1024 v = true -> is_nan v = false -> is_inf v = false ->
+  feqb v fzero = false -> posfin (fabs v).
+Proof.
+  destruct v as [s|s| |s m e]; simpl; intros Hv Hn Hi Hz; try discriminate.
+  now exists m, e.
+Qed.
 
 Section Corollaries.
   Variable fmt_fixed : f64 -> Z -> string.
 
-  (* THEOREM 2 for value > 0: every finite double > 0 is formatted within fuel 701 by every
-     picture whose exponent sub-pictures (if any) have no percent/per-mille sign and at most
-     4200 mandatory integer digits *)
-  Corollary format_number_terminates_pos fuel value picture fmt :
-    (701 <= fuel)%nat -> posfin value ->
-    (forall vars, process_picture picture fmt false = LOk vars ->
+  (* THEOREM 2 for every double: zero, negative, positive, NaN, infinite -- provided the
+     exponent sub-pictures (if any) have no percent/per-mille sign and at most 4200 mandatory
+     integer digits (both discharged for good formats and pictures of <= 4200 bytes below) *)
+  Corollary format_number_terminates_all fuel value picture fmt :
+    (701 <= fuel)%nat -> SpecFloat.valid_binary 53 1024 value = true ->
+    (forall vars, process_picture picture fmt (fltb value fzero) = LOk vars ->
        sv_min_exponent_size vars <> 0 ->
        sv_number_type vars = 0 /\ 0 <= sv_scaling_factor vars <= 4200) ->
     format_number fmt_fixed fuel value picture fmt <> LFuel.
   Proof.
     intros Hfuel Hv Hvars. apply format_number_terminates; [exact Hfuel|].
-    rewrite (posfin_not_neg value Hv). intros vars Hpp Hexp _ _.
+    intros vars Hpp Hexp Hnan Hinf.
     destruct (Hvars vars Hpp Hexp) as [Hty Hsf]. unfold scaled. rewrite Hty. simpl.
-    split; [exact Hv|now apply pow_ok_small].
-  Qed.
-
-  (* where it diverges: for value <= 0 (both zeros, every negative double) and a picture with
-     an exponent part the first loop makes no progress -- 0*10 = 0 and negative*10 stays
-     negative -- so the model returns LFuel for EVERY fuel (the Go code hangs) *)
-  Theorem format_number_diverges_nonpos fuel value picture fmt vars :
-    (exists s, value = S754_zero s) \/ negfin_or_ninf value -> is_inf value = false ->
-    picture <> "" ->
-    process_picture picture fmt (fltb value fzero) = LOk vars ->
-    sv_min_exponent_size vars <> 0 -> sv_number_type vars = 0 ->
-    fltb fzero (go_pow10 (sv_scaling_factor vars - 1)) = true ->
-    format_number fmt_fixed fuel value picture fmt = LFuel.
-  Proof.
-    intros Hv Hinf Hne Hpp Hexp Hty Hmin. unfold format_number.
-    replace (seqb picture "") with false
-      by (destruct (seqb picture "") eqn:E; [apply seqb_eq in E; congruence|reflexivity]).
-    rewrite Hpp. simpl lbind.
-    replace (is_nan value) with false
-      by (destruct Hv as [[s ->]|[->|(m & e & -> & _)]]; reflexivity).
-    rewrite Hinf, Hty. simpl (0 =? 1). simpl (0 =? 2). cbv iota.
-    replace (negb (sv_min_exponent_size vars =? 0)) with true by lia.
-    replace (scale_up fuel value (go_pow10 (sv_scaling_factor vars - 1)) 0) with (@None (f64 * Z)).
-    - reflexivity.
-    - symmetry. destruct Hv as [[s ->]|Hv].
-      + apply scale_up_stuck_zero.
-        destruct s; destruct (go_pow10 _) as [[]|[]| |[] ? ?]; try discriminate; reflexivity.
-      + now apply scale_up_stuck_neg.
+    intros Hz. split; [now apply fabs_posfin|now apply pow_ok_small].
   Qed.
 End Corollaries.
-Print Assumptions format_number_terminates_pos.
-Print Assumptions format_number_diverges_nonpos.
+Print Assumptions format_number_terminates_all.
 
-(* $formatNumber(x, "0.0e0") with the default format: LFuel for every fuel and every finite
-   x <= 0, a result for every finite x > 0 with fuel 701 *)
-Example diverges_0_0e0 fmt_fixed fuel value :
-  (exists s, value = S754_zero s) \/
-  (exists m e, value = S754_finite true m e /\ SpecFloat.bounded 53 1024 m e = true) ->
-  format_number fmt_fixed fuel value "0.0e0" default_decimal_format = LFuel.
-Proof.
-  intros Hv.
-  assert (Hneg : fltb value fzero = false \/ fltb value fzero = true).
-  { destruct (fltb value fzero); auto. }
-  destruct Hneg as [Hneg|Hneg].
-  - eapply format_number_diverges_nonpos with
-      (vars := mk_vars 0 [] 0 1 1 [] 1 1 1 "" "").
-    + destruct Hv as [Hz|Hn]; [now left|right; now right].
-    + destruct Hv as [[s ->]|(m & e & -> & _)]; reflexivity.
-    + discriminate.
-    + rewrite Hneg. vm_compute. reflexivity.
-    + discriminate.
-    + reflexivity.
-    + vm_compute. reflexivity.
-  - eapply format_number_diverges_nonpos with
-      (vars := mk_vars 0 [] 0 1 1 [] 1 1 1 "-" "").
-    + destruct Hv as [Hz|Hn]; [now left|right; now right].
-    + destruct Hv as [[s ->]|(m & e & -> & _)]; reflexivity.
-    + discriminate.
-    + rewrite Hneg. vm_compute. reflexivity.
-    + discriminate.
-    + reflexivity.
-    + vm_compute. reflexivity.
-Qed.
-
+(* $formatNumber(x, "0.0e0") with the default format terminates for every double with fuel 701 *)
 Example terminates_0_0e0 fmt_fixed value :
-  posfin value ->
+  SpecFloat.valid_binary 53 1024 value = true ->
   format_number fmt_fixed 701 value "0.0e0" default_decimal_format <> LFuel.
 Proof.
-  intros Hv. apply format_number_terminates_pos; [lia|exact Hv|].
-  intros vars Hpp _. vm_compute in Hpp. injection Hpp as <-. simpl. lia.
+  intros Hv. apply format_number_terminates_all; [lia|exact Hv|].
+  intros vars Hpp _. destruct (fltb value fzero); vm_compute in Hpp; injection Hpp as <-;
+    simpl; lia.
 Qed.
-
-(* a large fuel running out is not a proof of divergence; the theorem above is *)
-Example format_number_diverges_refuted :
-  forall fmt_fixed, format_number fmt_fixed (Z.to_nat 100000) fzero "0.0e0" default_decimal_format = LFuel.
-Proof. intros. apply diverges_0_0e0. left. now exists false. Qed.
 
 (* ==================================================================================== *)
 (* 3. Panic freedom                                                                      *)
@@ -1479,7 +1432,7 @@ Section NoPanic.
     apply lbind_np; [now apply process_picture_no_panic|intros vars _].
     destruct (is_nan value); [apply np_ok|]. destruct (is_inf value); [apply np_ok|].
     cbv zeta. apply lbind_np.
-    - destruct (negb _); [|apply np_ok].
+    - destruct (negb _ && negb _); [|apply np_ok].
       destruct (scale_up _ _ _ _) as [[v e]|]; [|intros w; discriminate].
       destruct (scale_down _ _ _ _); [apply np_ok|intros w; discriminate].
     - intros [v e] _.
@@ -1671,9 +1624,7 @@ Qed.
 (* 2'. Closed forms of Theorem 2 for good formats                                        *)
 (*      exp_excludes_percent           an accepted exponent picture has no percent sign   *)
 (*      scaling_factor_bounds          0 <= ScalingFactor <= length of the sub-picture    *)
-(*      format_number_terminates_good  value > 0, picture of <= 4200 bytes: never LFuel   *)
-(*      format_number_diverges_good    value <= 0 and an accepted exponent picture: LFuel *)
-(*                                     for every fuel                                     *)
+(*      format_number_terminates_good  every double, picture of <= 4200 bytes: never LFuel *)
 (* ==================================================================================== *)
 
 (* ---- inversion of the analyser ---- *)
@@ -1934,13 +1885,14 @@ Proof.
 Qed.
 
 (* THEOREM 2, closed form: for a format with valid separators and digits, FormatNumber
-   terminates (fuel 701 is enough) for EVERY finite value > 0 and EVERY picture of at most
-   4200 bytes *)
+   terminates (fuel 701 is enough) for EVERY double -- zero, negative, positive, NaN or
+   infinite -- and EVERY picture of at most 4200 bytes *)
 Theorem format_number_terminates_good fmt_fixed fuel value picture fmt :
-  good_format fmt -> (701 <= fuel)%nat -> posfin value -> (slen picture <= 4200)%nat ->
+  good_format fmt -> (701 <= fuel)%nat -> SpecFloat.valid_binary 53 1024 value = true ->
+  (slen picture <= 4200)%nat ->
   format_number fmt_fixed fuel value picture fmt <> LFuel.
 Proof.
-  intros Hg Hfuel Hv Hlen. apply format_number_terminates_pos; auto.
+  intros Hg Hfuel Hv Hlen. apply format_number_terminates_all; auto.
   intros vars Hpp Hexp.
   apply process_picture_inv in Hpp as (sub & v0 & Hsub & Hps & Hty & Hmin & Hsf).
   rewrite Hty, Hsf. rewrite Hmin in Hexp. split.
@@ -1949,39 +1901,32 @@ Proof.
 Qed.
 Print Assumptions format_number_terminates_good.
 
-Definition minpos_at (n : Z) : bool := fltb fzero (go_pow10 (n - 1)).
-Lemma minpos_check : all_upto minpos_at pow_ok_bound = true.
-Proof. vm_compute. reflexivity. Qed.
-Lemma minpos_small n : 0 <= n <= 4200 -> fltb fzero (go_pow10 (n - 1)) = true.
-Proof.
-  intros Hn. apply (all_upto_spec minpos_at pow_ok_bound minpos_check n).
-  unfold pow_ok_bound. rewrite Z2Nat.id by lia. lia.
-Qed.
+(* the formerly hanging calls *)
+Example formerly_hanging :
+  go_format_number 701 fzero "0.0e0" default_decimal_format = LOk "0.0e0" /\
+  go_format_number 701 fnzero "0.0e0" default_decimal_format = LOk "0.0e0" /\
+  go_format_number 701 (f_of_Z (-1234)) "0.0e0" default_decimal_format = LOk "-1.2e3".
+Proof. repeat split; vm_compute; reflexivity. Qed.
 
-(* THE EXACT HANG CONDITION: value <= 0 (+0, -0 or any negative double) and a picture that
-   the analyser accepts with at least one exponent digit.  Then FormatNumber = LFuel for
-   every fuel. *)
-Theorem format_number_diverges_good fmt_fixed fuel value picture fmt vars :
-  good_format fmt -> (slen picture <= 4200)%nat ->
-  (exists s, value = S754_zero s) \/
-  (exists m e, value = S754_finite true m e /\ SpecFloat.bounded 53 1024 m e = true) ->
-  process_picture picture fmt (fltb value fzero) = LOk vars ->
-  sv_min_exponent_size vars <> 0 ->
-  format_number fmt_fixed fuel value picture fmt = LFuel.
-Proof.
-  intros Hg Hlen Hv Hpp Hexp.
-  pose proof Hpp as Hinv.
-  apply process_picture_inv in Hinv as (sub & v0 & Hsub & Hps & Hty & Hmin & Hsf).
-  apply (format_number_diverges_nonpos fmt_fixed fuel value picture fmt vars); auto.
-  - destruct Hv as [Hz|Hn]; [now left|right; now right].
-  - destruct Hv as [[s ->]|(m & e & -> & _)]; reflexivity.
-  - intros ->. unfold process_picture, split_string_at_rune in Hpp.
-    destruct (index_rune "" (df_pattern_separator fmt)) eqn:E.
-    + apply index_rune_slice_ok in E as (s2 & _ & Hlt & _);
-        [simpl in Hlt; lia|apply (gf_pat fmt Hg)].
-    + simpl in Hpp. discriminate.
-  - rewrite Hty. rewrite Hmin in Hexp. eapply exp_excludes_percent; eauto.
-  - rewrite Hsf. apply minpos_small.
-    pose proof (scaling_factor_bounds sub fmt v0 Hps). lia.
-Qed.
-Print Assumptions format_number_diverges_good.
+(* ------------------------------------------------------------------------------------ *)
+(* Witnesses of defects of the Go code, computed on the validated model                   *)
+(* ------------------------------------------------------------------------------------ *)
+Definition decf (s : string) : f64 := match parse_float s with PFOk x => x | _ => S754_nan end.
+
+(* irregular grouping: separators are emitted even when the number is shorter than the
+   picture's group positions *)
+Example defect_leading_separators :
+  go_format_number 701 (decf "12") "#,##,###" default_decimal_format = LOk ",,12".
+Proof. vm_compute. reflexivity. Qed.
+
+(* fractional grouping: getGroupPositions returns cumulative positions, insertSeparatorsAt
+   consumes them as relative ones *)
+Example defect_fraction_grouping :
+  go_format_number 701 (decf "0.3333333333333333") "0.###,###,#" default_decimal_format
+  = LOk "0.333,3333,".
+Proof. vm_compute. reflexivity. Qed.
+
+(* percent scaling overflows to +Inf after the IsInf test *)
+Example defect_percent_overflow :
+  go_format_number 701 (decf "1e308") "0%" default_decimal_format = LOk "+Inf%".
+Proof. vm_compute. reflexivity. Qed.
